@@ -167,6 +167,43 @@ class SDType(object):
         return 'dtype(%s)' % SDType._INFO[self.kind][2]
 
 
+class SCtxFactory(object):
+    """A generator function decorated with contextlib.contextmanager."""
+
+    def __init__(self, func):
+        self.func = func
+
+
+class SGenCtx(object):
+    """The context manager obtained by calling such a function."""
+
+    def __init__(self, gen):
+        self.gen = gen
+
+
+class SBroken(object):
+    """A callable whose definition uses something outside the subset (an unknown decorator): refused when called."""
+
+    def __init__(self, why):
+        self.why = why
+
+
+def _dotted(node):
+    if isinstance(node, ast.Name):
+        return node.id
+    if isinstance(node, ast.Attribute):
+        b = _dotted(node.value)
+        return None if b is None else b + '.' + node.attr
+    return None
+
+
+class SPartial(object):
+    """functools.partial(f, *args, **kw)."""
+
+    def __init__(self, func, args, kw):
+        self.func, self.args, self.kw = func, args, kw
+
+
 class SFlags(object):
     """`a.flags` of a numpy array (only `.writeable`)."""
 
@@ -301,7 +338,7 @@ class RepoModule(object):
 
 
 BUILTIN_EXC = set(EXC_BASES)
-EXTERNAL_MODULES = ('pyvc', 'numpy', 'scipy', 'warnings', 'copy', 'string', 'itertools', 'math', 'pint',
+EXTERNAL_MODULES = ('pyvc', 'numpy', 'scipy', 'warnings', 'copy', 'string', 'itertools', 'functools', 'contextlib', 'math', 'pint',
                     'enum', '__future__', 'os', 'pytest')
 
 
@@ -527,7 +564,7 @@ class Interp(object):
         elif isinstance(node, ast.ClassDef):
             env.vars[node.name] = self.make_class(node, env, m)
         elif isinstance(node, ast.FunctionDef):
-            env.vars[node.name] = SFunc(node, m, env)
+            env.vars[node.name] = self.decorated(node, SFunc(node, m, env))
         elif isinstance(node, ast.Assign):
             try:
                 v = run_to_completion(self.ev(node.value, env))
@@ -559,6 +596,20 @@ class Interp(object):
         if full == 'itertools.product':
             return SBuiltin('itertools.product')
         return SBuiltin(full)
+
+    def decorated(self, node, f):
+        """Decorators of plain functions are never ignored: contextlib.contextmanager is modelled, anything else makes
+        the function unusable (refused when it is called)."""
+        mod = f.module if isinstance(f, SFunc) else None
+        if mod is not None and ':' in (getattr(mod, 'relpath', '') or ''):
+            return f                 # sidecar contract files: @contract / @cases / @lemma register the function, they do not wrap it
+        for d in reversed(node.decorator_list):
+            name = _dotted(d)
+            if name in ('contextmanager', 'contextlib.contextmanager') and isinstance(f, SFunc):
+                f = SCtxFactory(f)
+            else:
+                f = SBroken('decorator @%s on %s' % (name or ast.dump(d)[:40], node.name))
+        return f
 
     def make_class(self, node, env, m):
         c = SClass(node.name, m, node, env)
@@ -711,9 +762,7 @@ class Interp(object):
         elif t is ast.Try:
             yield from self.exec_try(node, env)
         elif t is ast.With:
-            for item in node.items:
-                yield from self.ev(item.context_expr, env)
-            yield from self.exec_block(node.body, env)
+            yield from self.exec_with(node, 0, env)
         elif t is ast.Continue:
             raise _Continue()
         elif t is ast.Break:
@@ -721,7 +770,7 @@ class Interp(object):
         elif t is ast.Import or t is ast.ImportFrom:
             self.exec_toplevel(node, env, env.module)
         elif t is ast.FunctionDef:
-            env.vars[node.name] = SFunc(node, env.module, env)
+            env.vars[node.name] = self.decorated(node, SFunc(node, env.module, env))
         elif t is ast.AnnAssign:
             if node.value is not None:
                 v = yield from self.ev(node.value, env)
@@ -785,6 +834,66 @@ class Interp(object):
             raise
         else:
             yield from self.exec_block(node.orelse, env)
+
+    def exec_with(self, node, k, env):
+        """`with a as x, b as y: body`: opaque library managers (np.errstate, warnings.catch_warnings) have no effect on
+        values; an object of the library with __enter__/__exit__ is run as Python does; anything else is refused."""
+        if k == len(node.items):
+            yield from self.exec_block(node.body, env)
+            return
+        item = node.items[k]
+        cm = yield from self.ev(item.context_expr, env)
+        if isinstance(cm, SCtx):
+            if item.optional_vars is not None:
+                yield from self.assign(item.optional_vars, None, env)
+            yield from self.exec_with(node, k + 1, env)
+            return
+        if isinstance(cm, SObj) and self.find_method(cm.cls, '__enter__') is not None and self.find_method(cm.cls, '__exit__') is not None:
+            v = yield from self.call_function(self.find_method(cm.cls, '__enter__'), [cm], {})
+            if item.optional_vars is not None:
+                yield from self.assign(item.optional_vars, v, env)
+            ex = self.find_method(cm.cls, '__exit__')
+            try:
+                yield from self.exec_with(node, k + 1, env)
+            except SymRaise as e:
+                r = yield from self.call_function(ex, [cm, SExcClass(e.name), SExcInst(e.name), None], {})
+                if self.truth(r) if r is not None else False:
+                    return                   # the manager swallowed the exception
+                raise
+            except (_Return, _Break, _Continue):
+                yield from self.call_function(ex, [cm, None, None, None], {})
+                raise
+            yield from self.call_function(ex, [cm, None, None, None], {})
+            return
+        if isinstance(cm, SGenCtx):
+            v = yield from self.next_item(cm.gen)
+            if v is END:
+                raise SymRaise('RuntimeError', "generator didn't yield")
+            if item.optional_vars is not None:
+                yield from self.assign(item.optional_vars, v, env)
+            try:
+                yield from self.exec_with(node, k + 1, env)
+            except SymRaise as e:
+                # the exception is raised inside the generator at its yield; its own try/except/finally decide
+                try:
+                    ev = cm.gen.pygen.throw(e)
+                except StopIteration:
+                    cm.gen.done = True
+                    return               # swallowed
+                except _Return:
+                    cm.gen.done = True
+                    return
+                raise SymRaise('RuntimeError', "generator didn't stop after throw()")
+            except (_Return, _Break, _Continue):
+                after = yield from self.next_item(cm.gen)
+                if after is not END:
+                    raise SymRaise('RuntimeError', "generator didn't stop")
+                raise
+            after = yield from self.next_item(cm.gen)
+            if after is not END:
+                raise SymRaise('RuntimeError', "generator didn't stop")
+            return
+        raise Unsupported('with-statement on %r' % (cm,))
 
     def exec_for(self, node, env):
         it = yield from self.ev(node.iter, env)
@@ -1140,7 +1249,28 @@ class Interp(object):
                 step = yield from self.ev(node.step, env)
             return slice(lo, hi, step)
         if t is ast.JoinedStr:
-            return SStr()
+            parts = []
+            for v in node.values:
+                if isinstance(v, ast.Constant):
+                    parts.append(v.value)
+                else:
+                    x = yield from self.ev(v.value, env)
+                    if v.format_spec is not None or v.conversion != -1 or not isinstance(x, str):
+                        return SStr()          # the text of a formatted number is not modelled
+                    parts.append(x)
+            return ''.join(parts)
+        if t is ast.NamedExpr:
+            v = yield from self.ev(node.value, env)
+            yield from self.assign(node.target, v, env)
+            return v
+        if t is ast.Set:
+            items = []
+            for e in node.elts:
+                x = yield from self.ev(e, env)
+                items.append(x)
+            if any(is_sym(x) for x in items):
+                raise Unsupported('set display with symbolic members')
+            return set(items)
         if t is ast.Starred:
             raise Unsupported('starred expression')
         raise Unsupported('expression %s' % t.__name__)
@@ -2174,6 +2304,18 @@ class Interp(object):
             return r
         if isinstance(fn, SExcClass):
             return SExcInst(fn.name, tuple(args))
+        if isinstance(fn, SBroken):
+            raise Unsupported(fn.why)
+        if isinstance(fn, SCtxFactory):
+            g = yield from self.call(fn.func, list(args), kwargs)
+            if not isinstance(g, SGen):
+                raise SymRaise('TypeError', 'contextmanager on a non-generator')
+            return SGenCtx(g)
+        if isinstance(fn, SPartial):
+            kk = dict(fn.kw)
+            kk.update(kwargs)
+            r = yield from self.call(fn.func, list(fn.args) + list(args), kk)
+            return r
         if isinstance(fn, SBuiltin):
             m = self.models.get(fn.name)
             if m is None:
